@@ -2,11 +2,15 @@
    A case is one of
    - CContains: one parsed interval + many instants; per instant the harness recorded Go's civil fields in the
      effective location (t.In(loc): year, month, day, weekday, hour*60+minute), the zone offsets Go used, the
-     value of daysInMonth's expression, and the verdict of the real TimeInterval.ContainsTime.
-   - CParse*: a text through the real Unmarshal functions (accept/reject + parsed value).
+     value of the real daysInMonth, and the verdict of the real TimeInterval.ContainsTime.
+   - CClamp: the real clamp.  - CParse*: a text through the real UnmarshalYAML functions (accept/reject + value).
    - CMutes: the real Intervener.Mutes.  - CStage: the real TimeActiveStage / TimeMuteStage / MultiStage{both}.
+   - CCfg: config.Load's accept/reject on interval names.
+   - CSys: a whole instance (config.Load, dispatcher, the pipeline of notify.PipelineBuilder) under virtual time:
+     per flush of the group the tick instant, whether a notification left, and the API view of the marker.
    check_case: the model gives the recorded outputs (and Calendar.v gives Go's civil fields from unix + offset).
-   prop_case : the model's verdict equals the declarative calendar statement evaluated on the model's fields. *)
+   prop_case : the model's verdict equals the declarative calendar statement evaluated on the model's fields;
+               the gating statement holds on the model run. *)
 From AM Require Export Base.Prelude Model.Calendar Model.TimeInterval.
 
 Record inst := mkInst {
@@ -26,6 +30,7 @@ Inductive case :=
 | CMutes (m : intervals) (tzt : list (string * Z)) (names : list string) (now : Z) (out : res (bool * list string))
 | CStage (w : which_stage) (m : intervals) (tzt : list (string * Z)) (x : sctx) (marker0 : option (list string))
          (pass : bool) (err : option string) (muted_by : list string) (is_muted : bool)
+| CCfg (defined root_used : list string) (routes_used : list (list string)) (accepted : bool)
 (* whole instance: the flushes of one group, in order; the marker is threaded from flush to flush *)
 | CSys (m : intervals) (mute active : list string) (fl : list sysflush).
 
@@ -72,6 +77,7 @@ Inductive shown :=
 | ShInsts (l : list (civil * Z * bool))
 | ShZ (z : Z) | ShR (o : option rng) | ShM (o : res (bool * list string))
 | ShS (o : bool * option string * (list string * bool))
+| ShB (b : bool)
 | ShSys (l : list (bool * option string * (list string * bool))).
 
 Definition show_case (c : case) : shown :=
@@ -82,6 +88,7 @@ Definition show_case (c : case) : shown :=
   | CParseRange k s _ => ShR (parse_range k s)
   | CMutes m tzt names now _ => ShM (mutes (tz_table tzt) m names now)
   | CStage w m tzt x mk0 _ _ _ _ => ShS (stage_model w m tzt x mk0)
+  | CCfg d ru us _ => ShB (cfg_names_ok d ru us)
   | CSys m mute active fl => ShSys (sys_model m mute active None fl)
   end.
 
@@ -96,6 +103,7 @@ Definition check_case (c : case) : bool :=
   | CParseRange k s out => beq (parse_range k s) out
   | CMutes m tzt names now out => beq (mutes (tz_table tzt) m names now) out
   | CStage w m tzt x mk0 pass err by_ ism => beq (stage_model w m tzt x mk0) (pass, err, (by_, ism))
+  | CCfg d ru us acc => beq (cfg_names_ok d ru us) acc
   | CSys m mute active fl =>
       beq (sys_model m mute active None fl) (map (fun f => (f_notified f, None, (f_by f, f_muted f))) fl)
   end.
@@ -129,7 +137,7 @@ Definition prop_case (c : case) : bool :=
         let local := inst_local ti i in
         let c := civil_fields local in
         fields_ok local c &&
-        (negb (ti_proper ti && ti_valid ti) || beq (contains_fields ti c) (spec_fields ti c))) is_
+        beq (contains_fields ti c) (spec_fields ti c)) is_
   | CClamp n lo hi _ => negb (lo <=? hi) || ((lo <=? clamp n lo hi) && (clamp n lo hi <=? hi))
   | CParseTimeRange st en _ =>
       match parse_time_range st en with Some r => valid_time r | None => true end
@@ -142,6 +150,8 @@ Definition prop_case (c : case) : bool :=
       end
   | CStage StBoth m tzt x mk0 _ _ _ _ => gating_ok m tzt x mk0
   | CStage _ _ _ _ _ _ _ _ _ => true
+  | CCfg d ru us _ =>
+      negb (cfg_names_ok d ru us) || forallb (forallb (fun n => bool_decide (n ∈ d))) us
   | CSys m mute active fl =>
       forallb (fun f => gating_ok m (f_tzt f) (sys_ctx mute active (f_now f)) None
                         && gating_ok m (f_tzt f) (sys_ctx mute active (f_now f)) (Some ["stale"])) fl
